@@ -1,10 +1,305 @@
-//! Independent bytecode verifier (placeholder until the full analysis lands)
+//! Independent bytecode verifier (property C06).
+//!
+//! For every function of a `CompileDump` this decodes the reachable code, builds
+//! the control flow graph on the fly and runs a worklist abstract interpretation
+//! over two small integers per program point:
+//!
+//! * the operand stack depth relative to the frame base (`stack_start`). Slot 0
+//!   is the callee / receiver and slots `1..=parameter_count` are the arguments,
+//!   so a function is entered with depth `1 + parameter_count` (the script with 1)
+//! * the number of exception handlers this function has pushed and not yet popped
+//!
+//! Opcode *numbers* come from `laythe_vm::verif::byte_code_table()` (looked up by
+//! name). Operand widths and stack effects are a hand written table transcribed
+//! from `ByteCodeEncoder::encode` (widths) and from the interpreter in
+//! `laythe_vm/src/vm/ops.rs` (what every `op_*` pops and pushes on its normal
+//! path). `SymbolicByteCode::stack_effect` is deliberately NOT consulted: wrong
+//! entries in that table are one of the things this verifier has to find.
+//!
+//! The verifier never indexes unchecked and never loops unboundedly so it can be
+//! fed arbitrary bytes.
+//!
+//! ## What a function has reserved (finding `exceeds-reserved`)
+//!
+//! * called function: `Fiber::push_frame` runs `ensure_stack(fun.max_slots())`
+//!   with `stack_top` just above the last argument, i.e. at
+//!   `frame base + 1 + arg_count`. Capacity is therefore guaranteed up to
+//!   `base + 1 + arg_count + max_slots` (the vector may happen to be larger but
+//!   nothing promises that)
+//! * launched fiber: `Fiber::split` allocates exactly
+//!   `max_slots + arg_count + 1` values and copies callee + arguments into it:
+//!   the same bound, but here it is exact, there is no slack at all
+//! * script (main or imported module): `create_fiber` calls `Fiber::new` with
+//!   `max_slots + 1` values, `stack_top = base + 1`, `parameter_count == 0`:
+//!   again exactly `max_slots` values above the entry depth
+//!
+//! Every function the compiler emits has `Arity::Fixed(params)` (the script
+//! `Fixed(0)`) so `arg_count == parameter_count` on every entry and the three
+//! cases agree: `max depth - (1 + parameter_count) <= max_slots`. If variadic or
+//! default arities were ever compiled `arg_count` could exceed
+//! `parameter_count`, which only raises the amount reserved, so the bound used
+//! here stays the tightest that is right for all entries.
 use crate::proto::Json;
-use laythe_vm::verif::CompileDump;
+use laythe_vm::verif::{byte_code_table, CompileDump, ConstDump, FunDump};
+use std::collections::BTreeSet;
+
+/// Max number of worklist steps per function
+const STEP_BUDGET: usize = 1_000_000;
+
+/// Max number of findings kept per function (a fuzzer can produce many)
+const FINDING_CAP: usize = 200;
+
+#[derive(Clone, Copy, Debug, PartialEq, Eq)]
+enum Op {
+  Return,
+  Negate,
+  Add,
+  Subtract,
+  Multiply,
+  Divide,
+  Not,
+  And,
+  Or,
+  Constant,
+  ConstantLong,
+  Nil,
+  True,
+  False,
+  List,
+  Tuple,
+  Map,
+  Launch,
+  Channel,
+  BufferedChannel,
+  Receive,
+  Send,
+  Interpolate,
+  IterNext,
+  IterCurrent,
+  Drop,
+  DropN,
+  Dup,
+  Import,
+  ImportSym,
+  Export,
+  LoadGlobal,
+  DeclareModSym,
+  GetModSym,
+  SetModSym,
+  Box,
+  EmptyBox,
+  FillBox,
+  GetBox,
+  SetBox,
+  GetLocal,
+  SetLocal,
+  GetCapture,
+  SetCapture,
+  GetPropByName,
+  SetPropByName,
+  GetProp,
+  SetProp,
+  JumpIfFalse,
+  Jump,
+  Loop,
+  PushHandler,
+  CheckHandler,
+  GetError,
+  FinishUnwind,
+  ContinueUnwind,
+  Raise,
+  PopHandler,
+  Call,
+  Invoke,
+  SuperInvoke,
+  Closure,
+  Method,
+  Field,
+  StaticMethod,
+  Class,
+  Inherit,
+  GetSuper,
+  Equal,
+  NotEqual,
+  Greater,
+  GreaterEqual,
+  Less,
+  LessEqual,
+}
+
+/// How the operands of an instruction are laid out behind the opcode byte.
+/// All shorts and the cache slot ids are native endian
+#[derive(Clone, Copy, Debug, PartialEq, Eq)]
+enum Layout {
+  /// `op`
+  None,
+  /// `op_byte`: one u8
+  U8,
+  /// `op_short` / `op_jump`: one u16
+  U16,
+  /// `push_op_u16_tuple`: two u16
+  U16U16,
+  /// `op_short` followed by the 4 raw bytes of a `PropertySlot`
+  U16PropSlot,
+  /// `op_invoke` (u16, u8) followed by the 4 raw bytes of an `InvokeSlot`
+  U16U8InvokeSlot,
+  /// `op_short` followed by one 2 byte `CaptureIndex` per capture of the
+  /// referenced function
+  Closure,
+}
+
+/// name, op, layout. Widths transcribed from `ByteCodeEncoder::encode` and
+/// cross checked against the `read_byte/read_short/read_slot` calls in ops.rs
+const OPS: &[(&str, Op, Layout)] = &[
+  ("Return", Op::Return, Layout::None),
+  ("Negate", Op::Negate, Layout::None),
+  ("Add", Op::Add, Layout::None),
+  ("Subtract", Op::Subtract, Layout::None),
+  ("Multiply", Op::Multiply, Layout::None),
+  ("Divide", Op::Divide, Layout::None),
+  ("Not", Op::Not, Layout::None),
+  ("And", Op::And, Layout::U16),
+  ("Or", Op::Or, Layout::U16),
+  ("Constant", Op::Constant, Layout::U8),
+  ("ConstantLong", Op::ConstantLong, Layout::U16),
+  ("Nil", Op::Nil, Layout::None),
+  ("True", Op::True, Layout::None),
+  ("False", Op::False, Layout::None),
+  ("List", Op::List, Layout::U16),
+  ("Tuple", Op::Tuple, Layout::U16),
+  ("Map", Op::Map, Layout::U16),
+  ("Launch", Op::Launch, Layout::U8),
+  ("Channel", Op::Channel, Layout::None),
+  ("BufferedChannel", Op::BufferedChannel, Layout::None),
+  ("Receive", Op::Receive, Layout::None),
+  ("Send", Op::Send, Layout::None),
+  ("Interpolate", Op::Interpolate, Layout::U16),
+  ("IterNext", Op::IterNext, Layout::U16),
+  ("IterCurrent", Op::IterCurrent, Layout::U16),
+  ("Drop", Op::Drop, Layout::None),
+  ("DropN", Op::DropN, Layout::U8),
+  ("Dup", Op::Dup, Layout::None),
+  ("Import", Op::Import, Layout::U16),
+  ("ImportSym", Op::ImportSym, Layout::U16U16),
+  ("Export", Op::Export, Layout::U16),
+  ("LoadGlobal", Op::LoadGlobal, Layout::U16),
+  ("DeclareModSym", Op::DeclareModSym, Layout::U16U16),
+  ("GetModSym", Op::GetModSym, Layout::U16),
+  ("SetModSym", Op::SetModSym, Layout::U16),
+  ("Box", Op::Box, Layout::U8),
+  ("EmptyBox", Op::EmptyBox, Layout::None),
+  ("FillBox", Op::FillBox, Layout::None),
+  ("GetBox", Op::GetBox, Layout::U8),
+  ("SetBox", Op::SetBox, Layout::U8),
+  ("GetLocal", Op::GetLocal, Layout::U8),
+  ("SetLocal", Op::SetLocal, Layout::U8),
+  ("GetCapture", Op::GetCapture, Layout::U8),
+  ("SetCapture", Op::SetCapture, Layout::U8),
+  ("GetPropByName", Op::GetPropByName, Layout::U16PropSlot),
+  ("SetPropByName", Op::SetPropByName, Layout::U16PropSlot),
+  ("GetProp", Op::GetProp, Layout::U16),
+  ("SetProp", Op::SetProp, Layout::U16),
+  ("JumpIfFalse", Op::JumpIfFalse, Layout::U16),
+  ("Jump", Op::Jump, Layout::U16),
+  ("Loop", Op::Loop, Layout::U16),
+  ("PushHandler", Op::PushHandler, Layout::U16U16),
+  ("CheckHandler", Op::CheckHandler, Layout::U16),
+  ("GetError", Op::GetError, Layout::None),
+  ("FinishUnwind", Op::FinishUnwind, Layout::None),
+  ("ContinueUnwind", Op::ContinueUnwind, Layout::None),
+  ("Raise", Op::Raise, Layout::None),
+  ("PopHandler", Op::PopHandler, Layout::None),
+  ("Call", Op::Call, Layout::U8),
+  ("Invoke", Op::Invoke, Layout::U16U8InvokeSlot),
+  ("SuperInvoke", Op::SuperInvoke, Layout::U16U8InvokeSlot),
+  ("Closure", Op::Closure, Layout::Closure),
+  ("Method", Op::Method, Layout::U16),
+  ("Field", Op::Field, Layout::U16),
+  ("StaticMethod", Op::StaticMethod, Layout::U16),
+  ("Class", Op::Class, Layout::U16),
+  ("Inherit", Op::Inherit, Layout::None),
+  ("GetSuper", Op::GetSuper, Layout::U16),
+  ("Equal", Op::Equal, Layout::None),
+  ("NotEqual", Op::NotEqual, Layout::None),
+  ("Greater", Op::Greater, Layout::None),
+  ("GreaterEqual", Op::GreaterEqual, Layout::None),
+  ("Less", Op::Less, Layout::None),
+  ("LessEqual", Op::LessEqual, Layout::None),
+];
+
+/// byte -> (name, op, layout) built from the vm's own (name, byte) table
+struct OpTable {
+  by_byte: Vec<Option<(&'static str, Op, Layout)>>,
+  /// problems matching the vm's table against `OPS`
+  mismatches: Vec<String>,
+}
+
+impl OpTable {
+  fn new() -> Self {
+    let mut by_byte: Vec<Option<(&'static str, Op, Layout)>> = vec![None; 256];
+    let mut mismatches = vec![];
+    let mut seen = vec![false; OPS.len()];
+
+    for (name, byte) in byte_code_table() {
+      match OPS.iter().position(|(n, _, _)| *n == name) {
+        Some(position) => {
+          if let (Some(entry), Some(slot)) = (OPS.get(position), by_byte.get_mut(byte as usize)) {
+            *slot = Some(*entry);
+          }
+          if let Some(s) = seen.get_mut(position) {
+            *s = true;
+          }
+        },
+        None => mismatches.push(format!("vm opcode {name}={byte} unknown to the verifier")),
+      }
+    }
+    for (position, (name, _, _)) in OPS.iter().enumerate() {
+      if !seen.get(position).copied().unwrap_or(false) {
+        mismatches.push(format!("verifier opcode {name} unknown to the vm"));
+      }
+    }
+
+    Self {
+      by_byte,
+      mismatches,
+    }
+  }
+
+  fn get(&self, byte: u8) -> Option<(&'static str, Op, Layout)> {
+    self.by_byte.get(byte as usize).copied().flatten()
+  }
+}
+
+pub struct HandlerInfo {
+  /// offset of the PushHandler
+  pub at: usize,
+  /// the slot depth operand
+  pub recorded: i64,
+  /// the abstract depth at the PushHandler
+  pub expected: i64,
+}
+
+pub struct FunSummary {
+  pub index: usize,
+  pub name: String,
+  /// number of reachable instructions
+  pub instructions: usize,
+  /// the reachable code has a conditional branch, a loop or a handler
+  pub paths_gt1: bool,
+  /// maximum depth relative to the frame base
+  pub max_depth: i64,
+  pub entry_depth: i64,
+  pub max_slots: usize,
+  /// distinct depths at `Return` (before the operand is popped) relative to
+  /// `1 + parameter_count`
+  pub return_depths: Vec<i64>,
+  pub handlers: Vec<HandlerInfo>,
+}
 
 pub struct Report {
   pub findings: Vec<String>,
   pub functions: usize,
+  pub funs: Vec<FunSummary>,
 }
 
 impl Report {
@@ -16,13 +311,892 @@ impl Report {
       j.el_str(f);
     }
     j.end_arr();
+    j.kv_arr_begin("funs");
+    for f in &self.funs {
+      j.begin_obj();
+      j.kv_num("index", f.index);
+      j.kv_str("name", &f.name);
+      j.kv_num("instructions", f.instructions);
+      j.kv_bool("paths_gt1", f.paths_gt1);
+      j.kv_num("max_depth", f.max_depth);
+      j.kv_num("entry_depth", f.entry_depth);
+      j.kv_num("max_slots", f.max_slots);
+      j.kv_arr_begin("return_depths");
+      for d in &f.return_depths {
+        j.el_num(*d);
+      }
+      j.end_arr();
+      j.kv_arr_begin("handlers");
+      for h in &f.handlers {
+        j.begin_obj();
+        j.kv_num("at", h.at);
+        j.kv_num("recorded", h.recorded);
+        j.kv_num("expected", h.expected);
+        j.end_obj();
+      }
+      j.end_arr();
+      j.end_obj();
+    }
+    j.end_arr();
     j.end_obj();
   }
 }
 
 pub fn verify(dump: &CompileDump) -> Report {
-  Report {
+  let table = OpTable::new();
+  let mut report = Report {
     findings: vec![],
     functions: dump.funs.len(),
+    funs: vec![],
+  };
+
+  for mismatch in &table.mismatches {
+    report
+      .findings
+      .push(format!("opcode-table-mismatch fn=-:- at=0 {mismatch}"));
+  }
+
+  for (index, fun) in dump.funs.iter().enumerate() {
+    let mut analysis = Analysis::new(dump, &table, index, fun);
+    analysis.run();
+    let (summary, findings) = analysis.finish();
+    report.findings.extend(findings);
+    report.funs.push(summary);
+  }
+
+  report
+}
+
+/// Abstract state at an instruction start
+#[derive(Clone, Copy, PartialEq, Eq)]
+struct State {
+  /// stack depth relative to the frame base
+  depth: i64,
+  /// handlers pushed by this function that are still active
+  handlers: i64,
+}
+
+/// What a byte of the code has been decoded as
+#[derive(Clone, Copy, PartialEq, Eq)]
+enum Cover {
+  Untouched,
+  Start,
+  Operand,
+}
+
+struct Analysis<'a> {
+  dump: &'a CompileDump,
+  table: &'a OpTable,
+  index: usize,
+  fun: &'a FunDump,
+  code: &'a [u8],
+  /// `1 + parameter_count`
+  floor: i64,
+  states: Vec<Option<State>>,
+  /// The instruction that first transferred control to an offset
+  first_from: Vec<usize>,
+  cover: Vec<Cover>,
+  work: Vec<usize>,
+  findings: Vec<String>,
+  suppressed: usize,
+  instructions: usize,
+  paths_gt1: bool,
+  max_depth: i64,
+  max_at: usize,
+  return_depths: BTreeSet<i64>,
+  handlers: Vec<HandlerInfo>,
+}
+
+impl<'a> Analysis<'a> {
+  fn new(dump: &'a CompileDump, table: &'a OpTable, index: usize, fun: &'a FunDump) -> Self {
+    let n = fun.code.len();
+    let floor = 1 + fun.parameter_count as i64;
+    Self {
+      dump,
+      table,
+      index,
+      fun,
+      code: &fun.code,
+      floor,
+      states: vec![None; n],
+      first_from: vec![0; n],
+      cover: vec![Cover::Untouched; n],
+      work: vec![],
+      findings: vec![],
+      suppressed: 0,
+      instructions: 0,
+      paths_gt1: false,
+      max_depth: floor,
+      max_at: 0,
+      return_depths: BTreeSet::new(),
+      handlers: vec![],
+    }
+  }
+
+  fn finding(&mut self, kind: &str, at: usize, details: String) {
+    if self.findings.len() >= FINDING_CAP {
+      self.suppressed += 1;
+      return;
+    }
+    self.findings.push(format!(
+      "{kind} fn={}:{} at={at} {details}",
+      self.index, self.fun.name
+    ));
+  }
+
+  fn finish(mut self) -> (FunSummary, Vec<String>) {
+    let reserved = self.fun.max_slots as i64;
+    if self.max_depth - self.floor > reserved {
+      let details = format!(
+        "max_depth={} entry_depth={} needs={} max_slots={}",
+        self.max_depth,
+        self.floor,
+        self.max_depth - self.floor,
+        self.fun.max_slots
+      );
+      let at = self.max_at;
+      self.finding("exceeds-reserved", at, details);
+    }
+    if self.suppressed > 0 {
+      let details = format!("suppressed={}", self.suppressed);
+      self.findings.push(format!(
+        "findings-truncated fn={}:{} at=0 {details}",
+        self.index, self.fun.name
+      ));
+    }
+
+    let summary = FunSummary {
+      index: self.index,
+      name: self.fun.name.clone(),
+      instructions: self.instructions,
+      paths_gt1: self.paths_gt1,
+      max_depth: self.max_depth,
+      entry_depth: self.floor,
+      max_slots: self.fun.max_slots,
+      return_depths: self.return_depths.iter().copied().collect(),
+      handlers: self.handlers,
+    };
+    (summary, self.findings)
+  }
+
+  fn u8_at(&self, offset: usize) -> Option<u8> {
+    self.code.get(offset).copied()
+  }
+
+  fn u16_at(&self, offset: usize) -> Option<u16> {
+    let a = self.code.get(offset).copied()?;
+    let b = self.code.get(offset.checked_add(1)?).copied()?;
+    Some(u16::from_ne_bytes([a, b]))
+  }
+
+  fn u32_at(&self, offset: usize) -> Option<u32> {
+    let mut bytes = [0u8; 4];
+    for (i, byte) in bytes.iter_mut().enumerate() {
+      *byte = self.code.get(offset.checked_add(i)?).copied()?;
+    }
+    Some(u32::from_ne_bytes(bytes))
+  }
+
+  /// Transfer control to `target` with `state`. `fallthrough` only selects the
+  /// wording of an out of range transfer
+  fn flow(&mut self, from: usize, target: Option<usize>, state: State, fallthrough: bool) {
+    let n = self.code.len();
+    let target = match target {
+      Some(target) if target < n => target,
+      other => {
+        let shown = match other {
+          Some(target) => target.to_string(),
+          None => "overflow".to_string(),
+        };
+        if fallthrough {
+          self.finding(
+            "falls-off-end",
+            from,
+            format!("next={shown} code_len={n}"),
+          );
+        } else {
+          self.finding(
+            "jump-out-of-range",
+            from,
+            format!("target={shown} code_len={n}"),
+          );
+        }
+        return;
+      },
+    };
+
+    match self.states.get(target).copied().flatten() {
+      None => {
+        if let Some(slot) = self.states.get_mut(target) {
+          *slot = Some(state);
+        }
+        if let Some(slot) = self.first_from.get_mut(target) {
+          *slot = from;
+        }
+        self.work.push(target);
+      },
+      Some(existing) => {
+        if existing.depth != state.depth {
+          let first = self.first_from.get(target).copied().unwrap_or(0);
+          self.finding(
+            "join-mismatch",
+            target,
+            format!(
+              "depth={} from={} but depth={} from={}",
+              existing.depth, first, state.depth, from
+            ),
+          );
+        }
+        if existing.handlers != state.handlers {
+          let first = self.first_from.get(target).copied().unwrap_or(0);
+          self.finding(
+            "handler-join-mismatch",
+            target,
+            format!(
+              "handlers={} from={} but handlers={} from={}",
+              existing.handlers, first, state.handlers, from
+            ),
+          );
+        }
+      },
+    }
+  }
+
+  fn constant(&self, index: usize) -> Option<&'a ConstDump> {
+    self.fun.constants.get(index)
+  }
+
+  /// A constant that the interpreter reads with `read_string`
+  fn check_name_constant(&mut self, at: usize, name: &str, index: usize) {
+    match self.constant(index) {
+      None => {
+        let len = self.fun.constants.len();
+        self.finding(
+          "const-out-of-range",
+          at,
+          format!("{name} index={index} constants={len}"),
+        );
+      },
+      Some(ConstDump::Str(_)) => (),
+      Some(other) => {
+        let kind = const_kind(other);
+        self.finding(
+          "const-kind",
+          at,
+          format!("{name} index={index} expected=str found={kind}"),
+        );
+      },
+    }
+  }
+
+  /// A constant that the interpreter reads with `read_constant(..).to_obj().to_list()`
+  fn check_path_constant(&mut self, at: usize, name: &str, index: usize) {
+    match self.constant(index) {
+      None => {
+        let len = self.fun.constants.len();
+        self.finding(
+          "const-out-of-range",
+          at,
+          format!("{name} index={index} constants={len}"),
+        );
+      },
+      Some(ConstDump::Other(kind)) if kind == "List" => (),
+      Some(other) => {
+        let kind = const_kind(other);
+        self.finding(
+          "const-kind",
+          at,
+          format!("{name} index={index} expected=list found={kind}"),
+        );
+      },
+    }
+  }
+
+  fn run(&mut self) {
+    if self.fun.lines.len() != self.code.len() {
+      let details = format!("lines={} code={}", self.fun.lines.len(), self.code.len());
+      self.finding("lines-length", 0, details);
+    }
+    if self.code.is_empty() {
+      self.finding("falls-off-end", 0, "next=0 code_len=0".to_string());
+      return;
+    }
+
+    if let Some(slot) = self.states.get_mut(0) {
+      *slot = Some(State {
+        depth: self.floor,
+        handlers: 0,
+      });
+    }
+    self.work.push(0);
+
+    let mut steps = 0usize;
+    while let Some(at) = self.work.pop() {
+      steps += 1;
+      if steps > STEP_BUDGET {
+        self.finding("analysis-budget", at, format!("steps={steps}"));
+        break;
+      }
+      self.step(at);
+    }
+  }
+
+  /// Mark the bytes of the instruction at `at` and report transfers that were
+  /// seen earlier and target one of its operand bytes
+  fn claim(&mut self, at: usize, len: usize) {
+    if let Some(slot) = self.cover.get_mut(at) {
+      *slot = Cover::Start;
+    }
+    for offset in at.saturating_add(1)..at.saturating_add(len) {
+      match self.cover.get(offset).copied() {
+        Some(Cover::Start) => {
+          // some transfer targets a byte that is an operand of this instruction
+          let from = self.first_from.get(offset).copied().unwrap_or(0);
+          self.finding(
+            "jump-not-boundary",
+            from,
+            format!("target={offset} inside instruction at={at} len={len}"),
+          );
+        },
+        Some(Cover::Untouched) => {
+          if let Some(slot) = self.cover.get_mut(offset) {
+            *slot = Cover::Operand;
+          }
+        },
+        _ => (),
+      }
+    }
+  }
+
+  fn step(&mut self, at: usize) {
+    let state = match self.states.get(at).copied().flatten() {
+      Some(state) => state,
+      None => return,
+    };
+    let d = state.depth;
+    let h = state.handlers;
+
+    // -- instruction boundary
+    match self.cover.get(at).copied() {
+      Some(Cover::Operand) => {
+        let from = self.first_from.get(at).copied().unwrap_or(0);
+        self.finding(
+          "jump-not-boundary",
+          from,
+          format!("target={at} inside a decoded instruction"),
+        );
+        return;
+      },
+      Some(Cover::Start) => return,
+      Some(Cover::Untouched) => (),
+      None => return,
+    }
+
+    // -- opcode
+    let byte = match self.u8_at(at) {
+      Some(byte) => byte,
+      None => return,
+    };
+    let (name, op, layout) = match self.table.get(byte) {
+      Some(entry) => entry,
+      None => {
+        if let Some(slot) = self.cover.get_mut(at) {
+          *slot = Cover::Start;
+        }
+        self.finding("bad-opcode", at, format!("byte={byte}"));
+        return;
+      },
+    };
+
+    // -- operands
+    let mut a: usize = 0;
+    let mut b: usize = 0;
+    let mut cache_slot: Option<u32> = None;
+    let mut len: usize = 1;
+    let decoded = match layout {
+      Layout::None => Some(()),
+      Layout::U8 => {
+        len = 2;
+        self.u8_at(at + 1).map(|v| a = v as usize)
+      },
+      Layout::U16 | Layout::Closure => {
+        len = 3;
+        self.u16_at(at + 1).map(|v| a = v as usize)
+      },
+      Layout::U16U16 => {
+        len = 5;
+        match (self.u16_at(at + 1), self.u16_at(at + 3)) {
+          (Some(x), Some(y)) => {
+            a = x as usize;
+            b = y as usize;
+            Some(())
+          },
+          _ => None,
+        }
+      },
+      Layout::U16PropSlot => {
+        len = 7;
+        match (self.u16_at(at + 1), self.u32_at(at + 3)) {
+          (Some(x), Some(slot)) => {
+            a = x as usize;
+            cache_slot = Some(slot);
+            Some(())
+          },
+          _ => None,
+        }
+      },
+      Layout::U16U8InvokeSlot => {
+        len = 8;
+        match (self.u16_at(at + 1), self.u8_at(at + 3), self.u32_at(at + 4)) {
+          (Some(x), Some(y), Some(slot)) => {
+            a = x as usize;
+            b = y as usize;
+            cache_slot = Some(slot);
+            Some(())
+          },
+          _ => None,
+        }
+      },
+    };
+    if decoded.is_none() {
+      if let Some(slot) = self.cover.get_mut(at) {
+        *slot = Cover::Start;
+      }
+      let n = self.code.len();
+      self.finding(
+        "truncated",
+        at,
+        format!("{name} needs={len} code_len={n}"),
+      );
+      return;
+    }
+
+    // -- closure capture words: their number comes from the referenced function
+    let mut captures: Vec<(u8, u8)> = vec![];
+    if op == Op::Closure {
+      let nested = match self.constant(a) {
+        Some(ConstDump::Fun(nested)) => self.dump.funs.get(*nested),
+        _ => None,
+      };
+      match nested {
+        Some(nested) => {
+          for i in 0..nested.capture_count {
+            let offset = at.saturating_add(3).saturating_add(i.saturating_mul(2));
+            match (self.u8_at(offset), self.u8_at(offset.saturating_add(1))) {
+              (Some(tag), Some(payload)) => captures.push((tag, payload)),
+              _ => {
+                if let Some(slot) = self.cover.get_mut(at) {
+                  *slot = Cover::Start;
+                }
+                let n = self.code.len();
+                self.finding(
+                  "truncated",
+                  at,
+                  format!(
+                    "{name} capture word {i} of {} past code_len={n}",
+                    nested.capture_count
+                  ),
+                );
+                return;
+              },
+            }
+          }
+          len = 3usize.saturating_add(nested.capture_count.saturating_mul(2));
+        },
+        None => {
+          // without the function the instruction length is unknown
+          if let Some(slot) = self.cover.get_mut(at) {
+            *slot = Cover::Start;
+          }
+          match self.constant(a) {
+            None => {
+              let n = self.fun.constants.len();
+              self.finding(
+                "const-out-of-range",
+                at,
+                format!("{name} index={a} constants={n}"),
+              );
+            },
+            Some(other) => {
+              let kind = const_kind(other);
+              self.finding(
+                "const-kind",
+                at,
+                format!("{name} index={a} expected=fun found={kind}"),
+              );
+            },
+          }
+          return;
+        },
+      }
+    }
+
+    self.claim(at, len);
+    self.instructions += 1;
+
+    // -- operand checks that do not depend on the stack
+    match op {
+      Op::Constant | Op::ConstantLong => {
+        if self.constant(a).is_none() {
+          let n = self.fun.constants.len();
+          self.finding(
+            "const-out-of-range",
+            at,
+            format!("{name} index={a} constants={n}"),
+          );
+        }
+      },
+      Op::GetPropByName
+      | Op::SetPropByName
+      | Op::Invoke
+      | Op::SuperInvoke
+      | Op::GetSuper
+      | Op::Class
+      | Op::Method
+      | Op::StaticMethod
+      | Op::Field
+      | Op::Export
+      | Op::LoadGlobal
+      | Op::DeclareModSym
+      | Op::IterNext
+      | Op::IterCurrent => self.check_name_constant(at, name, a),
+      Op::Import => self.check_path_constant(at, name, a),
+      Op::ImportSym => {
+        self.check_path_constant(at, name, a);
+        self.check_name_constant(at, name, b);
+      },
+      Op::GetCapture | Op::SetCapture => {
+        if a >= self.fun.capture_count {
+          let n = self.fun.capture_count;
+          self.finding(
+            "capture-out-of-range",
+            at,
+            format!("{name} index={a} capture_count={n}"),
+          );
+        }
+      },
+      _ => (),
+    }
+    if let Some(slot) = cache_slot {
+      let (kind, limit) = match op {
+        Op::GetPropByName | Op::SetPropByName => ("property", self.dump.property_slots),
+        _ => ("invoke", self.dump.invoke_slots),
+      };
+      if slot as usize >= limit {
+        self.finding(
+          "cache-slot-out-of-range",
+          at,
+          format!("{name} {kind}_slot={slot} {kind}_slots={limit}"),
+        );
+      }
+    }
+
+    // -- locals
+    match op {
+      Op::GetLocal | Op::SetLocal | Op::GetBox | Op::SetBox | Op::Box => {
+        if a as i64 >= d {
+          self.finding(
+            "slot-out-of-range",
+            at,
+            format!("{name} slot={a} depth={d}"),
+          );
+        }
+      },
+      Op::Closure => {
+        for (i, (tag, payload)) in captures.iter().enumerate() {
+          match tag {
+            // CaptureIndex::Local
+            0 => {
+              if *payload as i64 >= d {
+                self.finding(
+                  "slot-out-of-range",
+                  at,
+                  format!("{name} capture {i} Local({payload}) depth={d}"),
+                );
+              }
+            },
+            // CaptureIndex::Enclosing
+            1 => {
+              if *payload as usize >= self.fun.capture_count {
+                let n = self.fun.capture_count;
+                self.finding(
+                  "capture-out-of-range",
+                  at,
+                  format!("{name} capture {i} Enclosing({payload}) capture_count={n}"),
+                );
+              }
+            },
+            _ => {
+              self.finding(
+                "bad-capture-index",
+                at,
+                format!("{name} capture {i} tag={tag} payload={payload}"),
+              );
+            },
+          }
+        }
+      },
+      _ => (),
+    }
+
+    // -- stack effect on the normal path, transcribed from vm/ops.rs. A value that
+    // is only peeked counts as popped and pushed again so that reading below
+    // the function's fixed slots is an underflow too
+    let a64 = a as i64;
+    let b64 = b as i64;
+    let (pops, pushes): (i64, i64) = match op {
+      // pop result, pop frame
+      Op::Return => (1, 0),
+      Op::Negate | Op::Not => (1, 1),
+      Op::Add
+      | Op::Subtract
+      | Op::Multiply
+      | Op::Divide
+      | Op::Equal
+      | Op::NotEqual
+      | Op::Greater
+      | Op::GreaterEqual
+      | Op::Less
+      | Op::LessEqual => (2, 1),
+      // peek(0); the two edges differ, see below
+      Op::And | Op::Or => (1, 0),
+      Op::Constant | Op::ConstantLong | Op::Nil | Op::True | Op::False => (0, 1),
+      Op::List | Op::Tuple | Op::Interpolate => (a64, 1),
+      Op::Map => (a64 * 2, 1),
+      // closure case: the callee's frame (callee + args) moves to the new fiber and
+      // `Fiber::split` resets the launcher's stack top to where the callee was
+      Op::Launch => (a64 + 1, 0),
+      Op::Channel => (0, 1),
+      // pop capacity, push channel
+      Op::BufferedChannel => (1, 1),
+      // pop channel, push the received value (retry paths re-push and rewind)
+      Op::Receive => (1, 1),
+      // pop channel, peek(0) value which stays as the expression's result
+      Op::Send => (2, 1),
+      // peek(0) / peek_set(0) or invoke with 0 args whose result replaces the receiver
+      Op::IterNext | Op::IterCurrent => (1, 1),
+      Op::Drop => (1, 0),
+      Op::DropN => (a64, 0),
+      Op::Dup => (1, 2),
+      Op::Import | Op::ImportSym => (0, 1),
+      Op::Export | Op::DeclareModSym => (0, 0),
+      Op::LoadGlobal | Op::GetModSym => (0, 1),
+      // peek(0)
+      Op::SetModSym => (1, 1),
+      Op::Box => (0, 0),
+      Op::EmptyBox => (0, 1),
+      // pop value, peek(0) box
+      Op::FillBox => (2, 1),
+      Op::GetBox | Op::GetLocal | Op::GetCapture => (0, 1),
+      // peek(0)
+      Op::SetBox | Op::SetLocal | Op::SetCapture => (1, 1),
+      // peek(0), peek_set(0)
+      Op::GetPropByName | Op::GetProp => (1, 1),
+      // peek(1) instance, pop value, drop instance, push value
+      Op::SetPropByName | Op::SetProp => (2, 1),
+      Op::JumpIfFalse | Op::CheckHandler => (1, 0),
+      Op::Jump | Op::Loop => (0, 0),
+      Op::PushHandler | Op::PopHandler | Op::FinishUnwind | Op::ContinueUnwind => (0, 0),
+      Op::GetError => (0, 1),
+      Op::Raise => (1, 0),
+      // callee + args replaced by the result
+      Op::Call => (a64 + 1, 1),
+      // receiver + args replaced by the result
+      Op::Invoke => (b64 + 1, 1),
+      // pop the super class, then receiver + args replaced by the result
+      Op::SuperInvoke => (b64 + 2, 1),
+      Op::Closure | Op::Class => (0, 1),
+      // peek(1) class, peek(0) method, drop
+      Op::Method | Op::StaticMethod => (2, 1),
+      // peek(0) class
+      Op::Field => (1, 1),
+      // peek(1) super class, peek(0) sub class
+      Op::Inherit => (2, 2),
+      // pop super class, bind_method: peek(0) / peek_set(0) the receiver
+      Op::GetSuper => (2, 1),
+    };
+
+    if op == Op::Return && d - pops < self.floor {
+      // the generic rule below under its own name: there is no value above the
+      // frame's fixed slots to return
+      self.finding(
+        "return-depth",
+        at,
+        format!("depth={d} floor={} needs at least {}", self.floor, self.floor + 1),
+      );
+      self.return_depths.insert(d - self.floor);
+      if h != 0 {
+        self.finding(
+          "return-with-active-handler",
+          at,
+          format!("handlers={h}"),
+        );
+      }
+      return;
+    }
+    if d - pops < self.floor {
+      self.finding(
+        "underflow",
+        at,
+        format!(
+          "{name} depth={d} pops={pops} floor={} (1+{} parameters)",
+          self.floor, self.fun.parameter_count
+        ),
+      );
+      return;
+    }
+    let after = d - pops + pushes;
+    let peak = if after > d { after } else { d };
+    if peak > self.max_depth {
+      self.max_depth = peak;
+      self.max_at = at;
+    }
+
+    let next = at.checked_add(len);
+    let forward = |distance: usize| next.and_then(|next| next.checked_add(distance));
+
+    // -- successors
+    match op {
+      Op::Return => {
+        // `d` still includes the operand and is at least `floor + 1` here
+        self.return_depths.insert(d - self.floor);
+        if h != 0 {
+          self.finding(
+            "return-with-active-handler",
+            at,
+            format!("handlers={h}"),
+          );
+        }
+      },
+      Op::Raise => (),
+      Op::ContinueUnwind => {
+        // pops the handler that caught and goes on unwinding
+        if h < 1 {
+          self.finding("handler-underflow", at, format!("{name} handlers={h}"));
+        }
+      },
+      Op::Jump => {
+        let target = forward(a);
+        self.flow(
+          at,
+          target,
+          State {
+            depth: after,
+            handlers: h,
+          },
+          false,
+        );
+      },
+      Op::Loop => {
+        self.paths_gt1 = true;
+        // `op_loop`: the distance is taken from the end of the instruction
+        let target = next.and_then(|next| next.checked_sub(a));
+        self.flow(
+          at,
+          target,
+          State {
+            depth: after,
+            handlers: h,
+          },
+          false,
+        );
+      },
+      Op::JumpIfFalse | Op::CheckHandler => {
+        self.paths_gt1 = true;
+        let both = State {
+          depth: after,
+          handlers: h,
+        };
+        self.flow(at, forward(a), both, false);
+        self.flow(at, next, both, true);
+      },
+      Op::And | Op::Or => {
+        self.paths_gt1 = true;
+        // the operand stays when jumping and is dropped when falling through
+        self.flow(
+          at,
+          forward(a),
+          State {
+            depth: after + 1,
+            handlers: h,
+          },
+          false,
+        );
+        self.flow(
+          at,
+          next,
+          State {
+            depth: after,
+            handlers: h,
+          },
+          true,
+        );
+      },
+      Op::PushHandler => {
+        self.paths_gt1 = true;
+        let recorded = a64;
+        if recorded != d {
+          self.finding(
+            "handler-depth",
+            at,
+            format!("recorded={recorded} expected={d}"),
+          );
+        }
+        self.handlers.push(HandlerInfo {
+          at,
+          recorded,
+          expected: d,
+        });
+
+        // `stack_unwind` enters the catch code with the stack cut to the recorded
+        // depth and the catching handler still on the handler stack: it is popped
+        // by the PopHandler behind FinishUnwind or by ContinueUnwind. A wrong
+        // operand has been reported above, the analysis goes on with the depth
+        // that should have been recorded so one defect gives one finding
+        let entered = State {
+          depth: d,
+          handlers: h + 1,
+        };
+        self.flow(at, forward(b), entered, false);
+        self.flow(at, next, entered, true);
+      },
+      Op::PopHandler => {
+        if h < 1 {
+          self.finding("handler-underflow", at, format!("{name} handlers={h}"));
+          return;
+        }
+        self.flow(
+          at,
+          next,
+          State {
+            depth: after,
+            handlers: h - 1,
+          },
+          true,
+        );
+      },
+      _ => {
+        self.flow(
+          at,
+          next,
+          State {
+            depth: after,
+            handlers: h,
+          },
+          true,
+        );
+      },
+    }
+  }
+}
+
+fn const_kind(constant: &ConstDump) -> String {
+  match constant {
+    ConstDump::Nil => "nil".to_string(),
+    ConstDump::Bool(_) => "bool".to_string(),
+    ConstDump::Num(_) => "num".to_string(),
+    ConstDump::Str(_) => "str".to_string(),
+    ConstDump::Fun(_) => "fun".to_string(),
+    ConstDump::Other(kind) => format!("other:{kind}"),
   }
 }
